@@ -68,9 +68,10 @@ def c10_post(run, summ, tmpdir):
 
 CHECKS = {
     "C10": dict(
+        promote=True,   # thorough bounds cost seconds: used for the quick tier as well
         level="exploration",
         runs=[dict(name="dh", target="h_dh", args=[], quick=[], thorough=[], post=c10_post)],
-        deadline=dict(quick=100, thorough=600),
+        deadline=dict(quick=150, thorough=600),
         rule=("full cross product private value x (peer value | generate_pub) x blinding value incl. entropy failure, "
               "crypto_dh_generate for x * r * failure position, agreement for all pairs of private values, sanitycheck on p with every "
               "single byte/bit changed; a case is non-trivial when the call succeeded and the exact result is neither 0 nor 1 "
